@@ -18,13 +18,14 @@ BASELINE = ('cd /repo && /venv/bin/python -m pytest -ra -q -p no:cacheprovider -
 def main():
     props = [json.loads(l) for l in open(os.path.join(ROOT, 'properties.jsonl'))]
     na = json.load(open(os.path.join(ROOT, 'tools', 'not_applicable.json')))
+    claimed = set(json.load(open(os.path.join(ROOT, 'tools', 'claimed.json'))))   # maintained by the coordinator
     checks = []
     not_app = []
     for p in props:
         pid = p['id']
         path = os.path.join(ROOT, 'tools', 'props', pid + '.py')
         mod = None
-        if os.path.exists(path) and pid not in na:
+        if os.path.exists(path) and pid not in na and pid in claimed:
             mod = importlib.import_module('props.' + pid)
         if mod is None or not hasattr(mod, 'MANIFEST'):
             not_app.append(dict(property_id=pid, reason=na.get(pid, 'check not built yet (work in progress); not claimed')))
